@@ -138,6 +138,23 @@ def immerse(spec, rng):
     return spec
 
 
+def cement(spec, rng):
+    """turn air gaps behind glass into cemented interfaces (glass-glass, both sides dispersive): gen_spec always
+    returns to air after a glass"""
+    ss = spec['surfaces']
+    n = 0
+    for i in range(len(ss) - 2):
+        a, b = ss[i].get('material'), ss[i + 1].get('material')
+        if isinstance(a, list) and b == 'air' and ss[i + 2].get('material') != 'mirror' and rng.random() < 0.7:
+            others = [g for g in GLASSES if not (a[0] == 'glass' and g == a[1])]
+            ss[i + 1]['material'] = ['glass', rng.choice(others), 'schott']
+            ss[i + 1]['thickness'] = math.copysign(rng.uniform(1.5, 6.0), ss[i + 1]['thickness'])
+            if isinstance(ss[i + 2].get('material'), list):
+                ss[i + 2]['material'] = 'air'
+            n += 1
+    return n
+
+
 def reorder_fields(spec, rng):
     """list the field points in another order (largest first, or shuffled): the maximum field is a property of the set"""
     f = list(spec['fields'])
@@ -356,6 +373,23 @@ def corpus():
         {'type': 'even_asphere', 'radius': 40.0, 'conic': 0.0, 'coefficients': [4e-5, 6e-8], 'thickness': 6.0,
          'material': ['ideal', 1.6, 0.0], 'is_stop': True},
         {'type': 'even_asphere', 'radius': -70.0, 'conic': 0.0, 'coefficients': [-3e-5], 'thickness': 50.0, 'material': 'air'}]))
+    # plane-parallel window in front of the stop: the stop is imaged at apparent depth t/n although no surface
+    # in front of it has power
+    out.append(dict(base, name='window-before-stop', fields=[[0.0, 0.0, 0.0, 0.0], [6.0, 0.0, 0.0, 0.0]], surfaces=[
+        {'type': 'standard', 'radius': inf, 'thickness': 12.0, 'material': ['ideal', 1.5, 0.0]},
+        {'type': 'standard', 'radius': inf, 'thickness': 8.0, 'material': 'air'},
+        {'type': 'standard', 'radius': inf, 'thickness': 2.0, 'material': 'air', 'is_stop': True},
+        {'type': 'standard', 'radius': 55.0, 'thickness': 5.0, 'material': ['glass', 'N-SK16', 'schott']},
+        {'type': 'standard', 'radius': -70.0, 'thickness': 60.0, 'material': 'air'}]))
+    # cemented doublet + cemented triplet of catalogue glasses (glass-glass interfaces, dispersion on both sides)
+    out.append(dict(base, name='cemented', wavelengths=[[0.4861, False], [0.5876, True], [0.6563, False]], surfaces=[
+        {'type': 'standard', 'radius': 61.0, 'thickness': 6.0, 'material': ['glass', 'N-BK7', 'schott'], 'is_stop': True},
+        {'type': 'standard', 'radius': -43.0, 'thickness': 2.5, 'material': ['glass', 'N-SF5', 'schott']},
+        {'type': 'standard', 'radius': -125.0, 'thickness': 4.0, 'material': 'air'},
+        {'type': 'standard', 'radius': 80.0, 'thickness': 3.0, 'material': ['glass', 'N-SF11', 'schott']},
+        {'type': 'standard', 'radius': 30.0, 'thickness': 6.0, 'material': ['glass', 'N-LAK9', 'schott']},
+        {'type': 'standard', 'radius': -60.0, 'thickness': 2.0, 'material': ['glass', 'F2', 'schott']},
+        {'type': 'standard', 'radius': -200.0, 'thickness': 70.0, 'material': 'air'}]))
     # one frame component at a time: tilt about y only, tilt about x only, decentre only
     out.append(dict(base, name='single-tilts', surfaces=[
         {'type': 'standard', 'radius': 60.0, 'thickness': 5.0, 'material': ['ideal', 1.6, 0.0], 'is_stop': True, 'ry': 0.06},
